@@ -16,6 +16,7 @@ import (
 	"io"
 	"os"
 	"strings"
+	"unicode/utf8"
 
 	"github.com/richardwilkes/toolbox/atexit"
 	"github.com/richardwilkes/toolbox/collection"
@@ -146,18 +147,19 @@ func (cl *CmdLine) Parse(args []string) []string {
 			outer:
 				for j, ch := range arg {
 					if option := options[string(ch)]; option != nil {
+						next := j + utf8.RuneLen(ch) // The option name may be a multi-byte character
 						switch {
 						case option.isBool():
 							cl.setOrFail(option, "-"+arg, "true")
-						case j == len(arg)-1:
+						case next == len(arg):
 							state = setOptionValueState
 							current = option
-							currentArg = "-" + arg[j:j+1]
-						case arg[j+1:j+2] == "=":
-							cl.setOrFail(option, "-"+arg, arg[j+2:])
+							currentArg = "-" + arg[j:next]
+						case arg[next:next+1] == "=":
+							cl.setOrFail(option, "-"+arg, arg[next+1:])
 							break outer
 						default:
-							cl.setOrFail(option, "-"+arg, arg[j+1:])
+							cl.setOrFail(option, "-"+arg, arg[next:])
 							break outer
 						}
 					} else {
